@@ -136,6 +136,8 @@ pub fn def() -> PropertyDef {
 			sweep_sub("ku-sweep", |_| ku_sweep_cases(), check_case),
 			sweep_sub("pathlen-sweep", |_| pathlen_sweep_cases(), check_case),
 			sweep_sub("prefix-sweep", |_| prefix_sweep_cases(), check_case),
+			// oracle self-test: the decoder against OpenSSL's own encoder (failures are INTERNAL, exit 2)
+			crate::props::selftest::sub(),
 		],
 	}
 }
